@@ -660,8 +660,15 @@ func runC10(a runArgs) error {
 	e := NewEmitter("C10", "Server.Run")
 	e.Preamble = "From GoCoap Require Import Base.Bytes Dedup.Model Dedup.Spec Server.Model Server.Spec."
 	e.ShardSize = 24
-	e.Rule = "a case is one run of a real server on loopback sockets (udp.NewServer + mux router): 2-4 well-behaved raw-socket clients run scripted CON/NON GET/POST/PUT/DELETE sequences (distinct tokens and payload tags, some retransmissions) while 1-4 adversarial peers send malformed datagrams (truncated header, bad version, TKL 9-15, truncated token/option, nibble 15, option number overflow, marker without payload, random bytes), oversize datagrams, unsolicited ACK/RST/responses and valid requests reusing a good client's token, each burst followed by a ping whose Reset is awaited. Non-trivial = at least two well-behaved clients and at least one datagram the server refused."
+	e.Rule = "a case is one run of a real server on loopback sockets (udp.NewServer + mux router): 2-4 well-behaved raw-socket clients run scripted CON/NON GET/POST/PUT/DELETE sequences (distinct tokens and payload tags, some retransmissions) while 1-4 adversarial peers send malformed datagrams (truncated header, bad version, TKL 9-15, truncated token/option, nibble 15, option number overflow, marker without payload, random bytes), oversize datagrams, unsolicited ACK/RST/responses and valid requests reusing a good client's token, each burst followed by a ping whose Reset is awaited. Non-trivial = at least two well-behaved clients and at least one datagram the server refused. Handshake families (tls:/dtls: cases): tcp server on a TLS listener (self-signed ECDSA certificate made at run time) and dtls server with PSK; 1-2 well-behaved clients connect and get half of their answers, then 2-5 adversarial peers connect one after the other (send nothing / 3 bytes of a ClientHello / garbage / close at once / full handshake then silence; DTLS: ClientHello never followed up, garbage behind a handshake record header, ClientHello then socket closed, datagram the accept filter drops), then 1-3 more well-behaved clients connect; every run has a peer that never finishes its handshake; all such cases count as non-trivial."
 	rng := NewRng(a.seed)
+	if v, err := strconv.Atoi(os.Getenv("HX_C10_HS_RUNS")); err == nil && v > 0 && a.only == "" {
+		// development aid: stress the handshake families alone
+		if err := c10HsFamily(e, a, v); err != nil {
+			return err
+		}
+		return e.Flush(a.out)
+	}
 	runs := 24
 	if a.tier == "thorough" {
 		runs = 200
@@ -841,7 +848,90 @@ func runC10(a runArgs) error {
 		}
 		e.AddW(coq, fmt.Sprintf("disc:%d", sd), true, 1+len(coq)/4000, "disc-run")
 	}
+	if err := c10HsFamily(e, a, mult); err != nil {
+		return err
+	}
 	_ = context.Background
 	_ = sort.Strings
 	return e.Flush(a.out)
+}
+
+// c10HsFamily: listeners with a handshake -- tcp server on a TLS listener, dtls server with PSK (c10_tls.go).
+// The parameters come from a generator of their own, so that the other runs are what they were.
+func c10HsFamily(e *Emitter, a runArgs, mult int) error {
+	type hr struct {
+		dtls              bool
+		sd                uint64
+		early, late, nreq int
+		kinds             string
+	}
+	var hrs []hr
+	for _, fam := range []string{"tls", "dtls"} {
+		if f := strings.Split(a.only, ":"); a.only != "" && f[0] == fam && len(f) == 6 {
+			sd, _ := strconv.ParseUint(f[1], 10, 64)
+			ea, _ := strconv.Atoi(f[2])
+			la, _ := strconv.Atoi(f[3])
+			n, _ := strconv.Atoi(f[4])
+			hrs = append(hrs, hr{fam == "dtls", sd, ea, la, n, f[5]})
+		}
+	}
+	if a.only == "" {
+		hrng := NewRng(a.seed ^ 0xC10A11CE)
+		mk := func(dtls bool, i int) hr {
+			letters, stall := "spgch", "sp"
+			if dtls {
+				letters, stall = "pgchf", "p"
+			}
+			n := 2 + hrng.Intn(4)
+			k := make([]byte, n)
+			for j := range k {
+				k[j] = letters[hrng.Intn(len(letters))]
+			}
+			// every run has a peer that never finishes its handshake, and that peer is the first one at least
+			// in every other run
+			k[hrng.Intn(n)] = stall[hrng.Intn(len(stall))]
+			if i%2 == 0 {
+				k[0] = stall[hrng.Intn(len(stall))]
+			}
+			return hr{dtls, hrng.U64() % 1000000007, 1 + hrng.Intn(2), 1 + hrng.Intn(3), 3 + hrng.Intn(4), string(k)}
+		}
+		for i := 0; i < 4*mult; i++ {
+			hrs = append(hrs, mk(false, i))
+		}
+		for i := 0; i < 3*mult; i++ {
+			hrs = append(hrs, mk(true, i))
+		}
+	}
+	for _, x := range hrs {
+		fam, run := "tls", c10TLSRun
+		if x.dtls {
+			fam, run = "dtls", c10DTLSRun
+		}
+		var coq string
+		clean := false
+		for attempt := 0; attempt < 2 && !clean; attempt++ {
+			c, ok, classes, err := run(x.sd, x.early, x.late, x.nreq, x.kinds)
+			if err != nil {
+				return err
+			}
+			coq, clean = c, ok
+			if ok {
+				for k, v := range classes {
+					e.Hist[fam+"-adv:"+k] += v
+				}
+			} else {
+				e.Hist["rerun-after-watchdog"]++
+				if os.Getenv("HXDBG") != "" {
+					fmt.Fprintf(os.Stderr, "watchdog in %s:%d:%d:%d:%d:%s attempt %d\n%s\n", fam, x.sd, x.early, x.late, x.nreq, x.kinds, attempt, c)
+				}
+			}
+		}
+		e.AddW(coq, fmt.Sprintf("%s:%d:%d:%d:%d:%s", fam, x.sd, x.early, x.late, x.nreq, x.kinds), true, 1+len(coq)/4000, fam+"-run")
+		if !clean {
+			// a well-behaved peer was not served in two attempts: the deviation is established by this case
+			e.Hist["stopped-early"]++
+			break
+		}
+	}
+	return nil
 }
